@@ -454,6 +454,7 @@ def _load():
     reg('LP.lowpass_sim_call', _lowpass_sim_call, seed_rng=556, group='lowpass')
     reg('LP.subsample_genotypes_seeded', _lp_subsample, group='lowpass')
     reg('ORACLE.errstate_scope', _errstate_scope, group='oracle')
+    reg('demes_export', _demes_export, group='demes')
     # ---- interference (E1, E4): results never compared
     reg('E1.churn', _churn, no_compare=True, group='interference')
     reg('E4.np_seed', lambda k: np.random.seed(k), no_compare=True, group='interference')
@@ -580,7 +581,42 @@ def _errstate_scope(kind, target, *args, **kw):
     return {'ok': got == want, 'what': 'numpy error state of the caller after %s' % target, 'set': want, 'found': got, 'raised': raised}
 
 
-def _mk_data_dict(seed, nsnp, pops, nchrom, nconfig=4, chroms=('chr1', 'chr2', 'scaffold_10')):
+def _demes_export(pts, variant, Nref, ns):
+    """a native model built from scratch (phi_1D starts a new event log), exported with Demes.output; the exported graph -- deme
+    order included, which fixes the axis order of every spectrum computed from it -- and the spectrum computed from it"""
+    import dadi
+    xx = dadi.Numerics.default_grid(pts)
+    phi = dadi.PhiManip.phi_1D(xx, nu=2.0)
+    phi = dadi.Integration.one_pop(phi, xx, 0.05, 2.0)
+    phi = dadi.PhiManip.phi_1D_to_2D(xx, phi)
+    if variant == 0:
+        phi = dadi.Integration.two_pops(phi, xx, 0.05, 1.0, 0.5, m12=1.0)
+    else:
+        phi = dadi.Integration.two_pops(phi, xx, 0.05, lambda t: 0.5 * (4.0) ** (t / 0.05), 0.5, m21=0.5)
+    if variant == 2:
+        phi = dadi.PhiManip.phi_2D_admix_1_into_2(phi, 0.2, xx, xx)
+        phi = dadi.Integration.two_pops(phi, xx, 0.02, 1.0, 0.5)
+    if variant in (1, 3):
+        phi = dadi.PhiManip.phi_2D_to_3D_split_2(xx, phi) if variant == 1 else dadi.PhiManip.phi_2D_to_3D_admix(phi, 0.3, xx, xx, xx)
+        phi = dadi.Integration.three_pops(phi, xx, 0.03, 1.0, 0.5, 2.0, m13=0.5)
+    g = dadi.Demes.output(Nref=Nref)
+    d = g.asdict()
+    names = [dm['name'] for dm in d['demes']]
+    leaves = [dm['name'] for dm in d['demes'] if dm['epochs'][-1]['end_time'] == 0]
+    summary = [[dm['name'], list(dm.get('ancestors', [])), [float(x) for x in dm.get('proportions', [])], float(dm['start_time']) if dm['start_time'] != float('inf') else -1.0,
+                [[float(e['end_time']), float(e['start_size']), float(e['end_size'])] for e in dm['epochs']]] for dm in d['demes']]
+    mig = [[m.get('source'), m.get('dest'), float(m['rate'])] for m in d.get('migrations', [])]
+    pul = [[list(p_['sources']), p_['dest'], [float(x) for x in p_['proportions']], float(p_['time'])] for p_ in d.get('pulses', [])]
+    try:
+        fs = dadi.Spectrum.from_demes(g, sampled_demes=leaves, sample_sizes=[ns] * len(leaves), pts=pts)
+    except ValueError as e:
+        # re-importing an exported three-way admixture fails on this tree ('d3_1' is not in list): outside C20, and the
+        # same in the pristine run; the exported graph is still compared
+        fs = 'ValueError'
+    return {'names': names, 'leaves': leaves, 'demes': summary, 'migrations': mig, 'pulses': pul, 'fs': fs}
+
+
+def _mk_data_dict(seed, nsnp, pops, nchrom, nconfig=4, chroms=('chr1', 'chr2', 'scaffold_10'), sparse=0):
     """synthetic data dictionary: few distinct SNP configurations (so counts > 1), several chromosomes, some SNPs unpolarised"""
     rs = np.random.RandomState(seed)
     configs = []
@@ -598,6 +634,12 @@ def _mk_data_dict(seed, nsnp, pops, nchrom, nconfig=4, chroms=('chr1', 'chr2', '
         dd['%s_%d' % (chroms[rs.randint(0, len(chroms))], 100 + 37 * i)] = {'segregating': ('A', 'T'), 'calls': dict(c), 'outgroup_allele': og,
                                                                            'context': 'CAG', 'outgroup_context': 'CAG',
                                                                            'coverage': {pop: rs.poisson(2 + 3 * pi, size=max(n // 2, 1)) for pi, (pop, n) in enumerate(zip(pops, nchrom))}}
+    if sparse:
+        # records without the optional entries (a hand-built dictionary): no outgroup information for some SNPs
+        for i, key in enumerate(list(dd)):
+            if i % 3 == sparse % 3:
+                for opt in ('outgroup_allele', 'outgroup_context', 'context')[:1 + sparse % 3]:
+                    dd[key].pop(opt, None)
     return dd
 
 
